@@ -2,6 +2,7 @@ import Heathcliff.Proofs.C10H
 import Heathcliff.Proofs.C10I
 import Heathcliff.Proofs.GenRns2
 import Heathcliff.Proofs.GenRns5
+import Heathcliff.Proofs.GenRns8
 
 /- Property theorems only (statements verbatim; proofs are the helper lemmas of Heathcliff/Proofs). -/
 namespace HC.C10
@@ -168,5 +169,34 @@ theorem gen_fast_floor_eq : type_of% @HC.gr_fast_floor_eq := @HC.gr_fast_floor_e
 /-- END TO END (BEHZ small Montgomery reduction): generated `sm_mrq` composed with `smMrq_spec` and `smMrq_scalar`: position `i·n + j` of ANY destination
     buffer receives `((Y_j + q·r_j)/m̃) mod b_i`, `r_j` the centred representative of `−Y_j·q⁻¹ mod m̃`, and `m̃ ∣ Y_j + q·r_j` -/
 theorem gen_sm_mrq_montgomery : type_of% @HC.gr_sm_mrq_montgomery := @HC.gr_sm_mrq_montgomery
+
+/-! ### translator tie, phase 4k: `RNSTool::decrypt_scale_and_round` (Proofs/GenRns6.lean, GenRns7.lean, GenRns8.lean) -/
+
+/-- `RNSTool::decrypt_scale_and_round` generated from the source = `RNSTool.decryptScaleAndRound`; flat input of `|q|` components, ANY destination of `n`
+    words; the `Option` fields are `Some`, `base_t_gamma = [t, γ]`; its call `base_q_to_t_gamma_conv.as_ref().unwrap().fast_convert_array(..)` is the
+    generated `fast_convert_array` on the fields of the model's `qToTGamma`; the γ-correction traps on both sides alike -/
+theorem gen_decrypt_scale_and_round_eq : type_of% @HC.gr_decrypt_scale_and_round_eq := @HC.gr_decrypt_scale_and_round_eq
+/-- the two operand vectors `decrypt_scale_and_round` indexes have the lengths `RNSTool.new` gives them -/
+theorem gen_dsr_sizes_of_new : type_of% @HC.gr_dsr_sizes_of_new := @HC.gr_dsr_sizes_of_new
+/-- END TO END (BEHZ scale-and-round, BFV decryption): on a level whose tool is the level's BEHZ tool (`DecOK`), for every canonical input whose
+    coefficient `j` has CRT value `X j < Q`, the GENERATED function returns word `j` = `round(t·x̃_j/Q) mod t` (x̃ centred) under the γ-condition
+    `2γ|t·x̃ − Q·round(t·x̃/Q)| + 2kQ ≤ Qγ`; the destination buffer's old contents are irrelevant -/
+theorem gen_decrypt_scale_and_round_rounds {l : Level} (hd : DecOK l) {ph : RnsPoly} (hph : RnsCanon l ph) (dst : Poly) (hdst : dst.size = l.n)
+    (hops : l.tool.baseQ.size ≤ l.tool.prodTGammaModQ.size) (hnops : 2 ≤ l.tool.negInvQModTGamma.size)
+    (hsn : l.size * l.n < 2^64) (h2n : 2 * l.n < 2^64) (hs64 : l.size < 2^64)
+    (X : Nat → Nat)
+    (hX : ∀ j, j < l.n → X j < l.tool.baseQ.prod ∧ ∀ i, i < l.size → X j % (l.q i).value = (ph.getD i #[]).getD j 0)
+    (hnoise : ∀ j, j < l.n →
+      2 * (l.tool.gamma.value : Int) *
+          |(l.t.value : Int) * Spec.centred (X j) l.tool.baseQ.prod
+            - (l.tool.baseQ.prod : Int) * Spec.roundDiv ((l.t.value : Int) * Spec.centred (X j) l.tool.baseQ.prod) l.tool.baseQ.prod|
+        + 2 * (l.size : Int) * (l.tool.baseQ.prod : Int)
+      ≤ (l.tool.baseQ.prod : Int) * (l.tool.gamma.value : Int)) :
+    ∃ btg conv ig, l.tool.baseTGamma = some btg ∧ l.tool.qToTGamma = some conv ∧ l.tool.invGammaModT = some ig ∧
+    ∃ out, HC.GenR.decrypt_scale_and_round (HC.flatP ph) dst.toList l.tool.baseQ.size l.tool.baseQ.base.toList btg.size btg.base.toList l.tool.n
+        l.tool.prodTGammaModQ.toList l.tool.negInvQModTGamma.toList l.tool.t l.tool.gamma ig (HC.gr_convF conv) = .ok out ∧
+      out.length = l.n ∧ ∀ j, j < l.n →
+        out.getD j 0 = Spec.imod (Spec.roundDiv ((l.t.value : Int) * Spec.centred (X j) l.tool.baseQ.prod) l.tool.baseQ.prod) l.t.value :=
+  HC.gr_decrypt_scale_and_round_rounds hd hph dst hdst hops hnops hsn h2n hs64 X hX hnoise
 
 end HC.C10
